@@ -260,7 +260,7 @@ Section Generic.
   (* ---- pending list helpers ---- *)
   Lemma nth_kill_same l i e : nth_error l i = Some e ->
     nth_error (kill l i) i = Some {| e_t := e_t e; e_src := e_src e; e_st := e_st e; e_msg := e_msg e; e_v3 := e_v3 e;
-                                     e_flag := e_flag e; e_live := false; e_badtid := e_badtid e; e_clos := e_clos e |}.
+                                     e_flag := e_flag e; e_live := false; e_badtid := e_badtid e; e_clos := e_clos e; e_tid := e_tid e |}.
   Proof.
     revert i. induction l as [|a l IH]; intros [|i] H; cbn in *; try discriminate.
     - injection H as ->. reflexivity.
@@ -311,7 +311,7 @@ Section Generic.
     - intros j e Hj. destruct (Nat.eq_dec i j) as [<-|Hij].
       + rewrite (nth_kill_same _ _ _ Hn) in Hj. injection Hj as <-. cbn. eapply I0; exact Hn.
       + rewrite nth_kill_other in Hj by exact Hij. eapply I0; exact Hj.
-    - intros j e Hj Hl. change (cur p {| persisted := persisted s; pending := kill (pending s) i; stored := (t, None) :: stored s |}) with (cur p s).
+    - intros j e Hj Hl. change (cur p (killed s i t)) with (cur p s).
       destruct (Nat.eq_dec i j) as [<-|Hij].
       + rewrite (nth_kill_same _ _ _ Hn) in Hj. injection Hj as <-. cbn in Hl. discriminate.
       + rewrite nth_kill_other in Hj by exact Hij. eapply I1; eassumption.
@@ -389,13 +389,19 @@ Section Generic.
     intros Hinv Hn Hl ED. pose proof Hinv as [I0 [I1 I2]]. unfold decide in ED.
     match type of ED with context [process p _ _ ?k _ _ ?sk true tape] => set (k0 := k) in *; set (skip := sk) in * end.
     destruct (process p (killed s i (e_t v)) (e_t v) k0 (e_msg v) (e_st v) skip true tape) as [[[s2 ann2] ok] fat] eqn:EP.
-    injection ED as <- _ <- ->.
+    injection ED as Hs _ <- ->.
+    assert (Hcur : forall x, cur p s' x = cur p s2 x).
+    { intros x. rewrite <- Hs. destruct (match p_meta p with Some _ => _ | None => false end); [|reflexivity].
+      destruct (e_tid v); reflexivity. }
+    assert (Hinv' : inv s2 -> inv s').
+    { intros Hx. rewrite <- Hs. destruct (match p_meta p with Some _ => _ | None => false end); [|exact Hx].
+      destruct (e_tid v); exact Hx. }
     pose proof (I1 _ _ Hn Hl) as Hsrc. pose proof (I0 _ _ Hn) as Hcan. rewrite <- Hsrc in Hcan.
     assert (Hnt : terminal p (cur p s (e_t v)) = false) by (eapply can_nonterminal; exact Hcan).
     change (cur p s) with (cur p (killed s i (e_t v))) in Hcan, Hnt.
     destruct (process_ok _ _ _ _ _ _ _ _ _ _ _ _ EP (fun _ => can_sedge _ _ Hcan) Hnt eq_refl) as [P [M [O NE]]].
-    split; [eapply (inv_extend (killed s i (e_t v)) s2 (e_t v) (inv_kill s i v (e_t v) Hinv Hn) (no_live_after_kill s i v Hinv Hn Hl) O NE)|].
-    change (cur p (killed s i (e_t v))) with (cur p s) in *. split; [exact P|]. split; [exact M|exact Hnt].
+    split; [apply Hinv'; eapply (inv_extend (killed s i (e_t v)) s2 (e_t v) (inv_kill s i v (e_t v) Hinv Hn) (no_live_after_kill s i v Hinv Hn Hl) O NE)|].
+    change (cur p (killed s i (e_t v))) with (cur p s) in *. split; [exact P|]. split; [rewrite Hcur; exact M|exact Hnt].
   Qed.
 
   Lemma inv_no_closures s : inv s -> inv (no_closures s).
@@ -404,7 +410,7 @@ Section Generic.
     - intros i e Hn. rewrite nth_error_map in Hn. destruct (nth_error (pending s) i) as [e0|] eqn:E; [|discriminate].
       injection Hn as <-. cbn. eapply I0; exact E.
     - intros i e Hn Hl. rewrite nth_error_map in Hn. destruct (nth_error (pending s) i) as [e0|] eqn:E; [|discriminate].
-      injection Hn as <-. cbn in *. change (cur p {| persisted := persisted s; pending := _; stored := stored s |}) with (cur p s).
+      injection Hn as <-. cbn in *. change (cur p (no_closures s)) with (cur p s).
       eapply I1; eassumption.
     - intros i j e1 e2 H1 H2 L1 L2 Ht. rewrite nth_error_map in H1, H2.
       destruct (nth_error (pending s) i) as [a|] eqn:Ea; [|discriminate].
@@ -413,8 +419,8 @@ Section Generic.
   Qed.
 
   (* a message handled for thread t *)
-  Lemma msg_inv s outbound m v3 flag t bt f tape s' r ann fat :
-    inv s -> msg_step p s outbound m v3 flag t bt f tape = (s', (r, ann), fat) ->
+  Lemma msg_inv s outbound m v3 flag t bt tid f tape s' r ann fat :
+    inv s -> msg_step p s outbound m v3 flag t bt tid f tape = (s', (r, ann), fat) ->
     negb (has_live s t) || is_reject r = true ->
     inv s' /\ is_path p (cur p s t :: ann) = true /\ In (cur p s' t) (cur p s t :: ann) /\
     (terminal p (cur p s t) = false \/ ann = []).
@@ -459,25 +465,25 @@ Section Generic.
       unfold disciplined_step in Hd.
       destruct (step p s (Msg outbound m v3 flag t f tape)) as [s' [r ann]] eqn:ES. cbn [fst snd] in *.
       pose proof ES as ES'. unfold step, step_full in ES'.
-      destruct (msg_step p s outbound m v3 flag t false f tape) as [[s1 [r1 ann1]] fat] eqn:EM.
+      destruct (msg_step p s outbound m v3 flag t false None f tape) as [[s1 [r1 ann1]] fat] eqn:EM.
       cbn [fst] in ES'. injection ES' as <- <- <-.
-      destruct (msg_inv _ _ _ _ _ _ _ _ _ _ _ _ _ Hinv EM Hd) as [Hi [P [M T]]].
+      destruct (msg_inv _ _ _ _ _ _ _ _ _ _ _ _ _ _ Hinv EM Hd) as [Hi [P [M T]]].
       split; [exact Hi|]. eapply step_ok_of; [reflexivity|exact ES|exact P|exact M|exact T].
     - (* a wire message *)
       unfold disciplined_step in Hd.
       destruct (step p s (Wire outbound m v3 flag wi wth wpth fresh f tape)) as [s' [r ann]] eqn:ES. cbn [fst snd] in *.
       pose proof ES as ES'. unfold step, step_full in ES'.
-      destruct (wire_thread p m v3 outbound wi wth wpth fresh) as [t|] eqn:EW.
+      destruct (wire_thread_s p s m v3 outbound wi wth wpth fresh) as [t|] eqn:EW.
       2:{ cbn [fst] in ES'. injection ES' as <- <- <-. split; [exact Hinv|].
           unfold step_ok. cbn [op_thread]. rewrite EW. reflexivity. }
       destruct (_ && N.eqb (p_tid_check p) 2).
       { cbn [fst] in ES'. injection ES' as <- <- <-. split; [exact Hinv|].
         eapply step_ok_of; [cbn [op_thread]; exact EW|exact ES|reflexivity|left; reflexivity|right; reflexivity]. }
-      destruct (msg_step p s outbound m v3 flag t _ _ tape) as [[s1 [r1 ann1]] fat] eqn:EM.
+      destruct (msg_step p s outbound m v3 flag t _ _ _ tape) as [[s1 [r1 ann1]] fat] eqn:EM.
       cbn [fst] in ES'. injection ES' as <- Hr <-.
       assert (Hd' : negb (has_live s t) || is_reject r1 = true).
       { rewrite <- Hr in Hd. unfold relabel in Hd. destruct (_ && _) in Hd; [destruct r1|]; exact Hd. }
-      destruct (msg_inv _ _ _ _ _ _ _ _ _ _ _ _ _ Hinv EM Hd') as [Hi [P [M T]]].
+      destruct (msg_inv _ _ _ _ _ _ _ _ _ _ _ _ _ _ Hinv EM Hd') as [Hi [P [M T]]].
       split; [exact Hi|]. eapply step_ok_of; [cbn [op_thread]; exact EW|exact ES|exact P|exact M|exact T].
     - (* Continue *)
       unfold disciplined_step in Hd. apply negb_true_iff in Hd.
@@ -616,8 +622,8 @@ Section Generic.
       + apply commit_other. exact Ht.
   Qed.
 
-  Lemma msg_step_other s outbound m v3 flag t bt f tape t' :
-    t' <> t -> cur p (fst (fst (msg_step p s outbound m v3 flag t bt f tape))) t' = cur p s t'.
+  Lemma msg_step_other s outbound m v3 flag t bt tid f tape t' :
+    t' <> t -> cur p (fst (fst (msg_step p s outbound m v3 flag t bt tid f tape))) t' = cur p s t'.
   Proof.
     intros H. unfold msg_step. destruct (f_get f); [reflexivity|].
     destruct (target p m v3 outbound) as [x|]; [|reflexivity].
@@ -636,7 +642,8 @@ Section Generic.
     match goal with |- context [process p ?s' (e_t v) ?k (e_msg v) (e_st v) ?sk true tape] =>
       pose proof (process_other s' (e_t v) k (e_msg v) (e_st v) sk true tape t' H) as L;
       destruct (process p s' (e_t v) k (e_msg v) (e_st v) sk true tape) as [[[s2 ann] ok] fat] end.
-    cbn [fst] in *. exact L.
+    cbn [fst] in *. destruct (match p_meta p with Some _ => _ | None => false end); [|exact L].
+    destruct (e_tid v); exact L.
   Qed.
 
   Lemma step_other s o t' :
@@ -646,11 +653,11 @@ Section Generic.
     destruct o as [outbound m v3 flag t f tape|outbound m v3 flag wi wth wpth fresh f tape|i opt f tape|i f tape|i tape|t opt f tape|t f tape|];
       cbn [op_thread] in *.
     - apply msg_step_other. apply H. reflexivity.
-    - destruct (wire_thread p m v3 outbound wi wth wpth fresh) as [t|]; [|reflexivity].
+    - destruct (wire_thread_s p s m v3 outbound wi wth wpth fresh) as [t|]; [|reflexivity].
       destruct (_ && N.eqb (p_tid_check p) 2); [reflexivity|].
-      match goal with |- context [msg_step p s outbound m v3 flag t ?b ?ff tape] =>
-        pose proof (msg_step_other s outbound m v3 flag t b ff tape t' (H t eq_refl)) as L;
-        destruct (msg_step p s outbound m v3 flag t b ff tape) as [[s1 [r1 ann1]] fat] end.
+      match goal with |- context [msg_step p s outbound m v3 flag t ?b ?td ?ff tape] =>
+        pose proof (msg_step_other s outbound m v3 flag t b td ff tape t' (H t eq_refl)) as L;
+        destruct (msg_step p s outbound m v3 flag t b td ff tape) as [[s1 [r1 ann1]] fat] end.
       cbn [fst] in *. exact L.
     - destruct (nth_error (pending s) i) as [v|]; [|reflexivity]. destruct (e_live v && e_clos v); [|reflexivity].
       apply decide_other. apply H. reflexivity.
@@ -737,9 +744,9 @@ Proof.
     + apply commit_other_gen. exact Ht.
 Qed.
 
-Lemma msg_reject_preserves p s outbound m v3 flag t bt f tape :
-  fst (snd (fst (msg_step p s outbound m v3 flag t bt f tape))) = RReject ->
-  fst (fst (msg_step p s outbound m v3 flag t bt f tape)) = s /\ snd (snd (fst (msg_step p s outbound m v3 flag t bt f tape))) = [].
+Lemma msg_reject_preserves p s outbound m v3 flag t bt tid f tape :
+  fst (snd (fst (msg_step p s outbound m v3 flag t bt tid f tape))) = RReject ->
+  fst (fst (msg_step p s outbound m v3 flag t bt tid f tape)) = s /\ snd (snd (fst (msg_step p s outbound m v3 flag t bt tid f tape))) = [].
 Proof.
   unfold msg_step. destruct (f_get f); [intros _; split; reflexivity|].
   destruct (target p m v3 outbound) as [x|]; [|intros _; split; reflexivity].
@@ -752,7 +759,7 @@ Qed.
 
 Lemma decide_not_reject p s i v opt stop f tape : fst (snd (fst (decide p s i v opt stop f tape))) <> RReject.
 Proof.
-  unfold decide. destruct (process p _ (e_t v) _ (e_msg v) (e_st v) _ true tape) as [[[s2 ann] ok] fat]. cbn. discriminate.
+  unfold decide. destruct (process p _ (e_t v) _ (e_msg v) (e_st v) _ true tape) as [[[s2 ann] ok] fat]. cbn [fst snd]. discriminate.
 Qed.
 
 Lemma reject_preserves_gen p s o :
@@ -761,11 +768,11 @@ Proof.
   unfold step, step_full.
   destruct o as [outbound m v3 flag t f tape|outbound m v3 flag wi wth wpth fresh f tape|i opt f tape|i f tape|i tape|t opt f tape|t f tape|].
   - apply msg_reject_preserves.
-  - destruct (wire_thread p m v3 outbound wi wth wpth fresh) as [t|]; [|intros _; split; reflexivity].
+  - destruct (wire_thread_s p s m v3 outbound wi wth wpth fresh) as [t|]; [|intros _; split; reflexivity].
     destruct (_ && N.eqb (p_tid_check p) 2); [intros _; split; reflexivity|].
-    match goal with |- context [msg_step p s outbound m v3 flag t ?b ?ff tape] =>
-      pose proof (msg_reject_preserves p s outbound m v3 flag t b ff tape) as L;
-      destruct (msg_step p s outbound m v3 flag t b ff tape) as [[s1 [r1 ann1]] fat] end.
+    match goal with |- context [msg_step p s outbound m v3 flag t ?b ?td ?ff tape] =>
+      pose proof (msg_reject_preserves p s outbound m v3 flag t b td ff tape) as L;
+      destruct (msg_step p s outbound m v3 flag t b td ff tape) as [[s1 [r1 ann1]] fat] end.
     cbn [fst snd] in *.
     intros H. apply L. unfold relabel in H. destruct (_ && _) in H; [destruct r1; try discriminate|]; exact H.
   - destruct (nth_error (pending s) i) as [v|]; [|cbn; discriminate]. destruct (e_live v && e_clos v); [|cbn; discriminate].
@@ -806,8 +813,8 @@ Qed.
 
 (* WIRE level: an accepted message was admitted by the state of the very thread it resolves to, and that is the only
    thread whose persisted state can differ afterwards *)
-Lemma msg_accepted p s outbound m v3 flag t bt f tape :
-  fst (snd (fst (msg_step p s outbound m v3 flag t bt f tape))) <> RReject ->
+Lemma msg_accepted p s outbound m v3 flag t bt tid f tape :
+  fst (snd (fst (msg_step p s outbound m v3 flag t bt tid f tape))) <> RReject ->
   exists x, target p m v3 outbound = Some x /\ can p (cur p s t) x = true.
 Proof.
   unfold msg_step. destruct (f_get f); [cbn; congruence|].
@@ -815,8 +822,8 @@ Proof.
   destruct (can p (cur p s t) x) eqn:Hc; [intros _; exists x; split; [reflexivity|exact Hc]|cbn; congruence].
 Qed.
 
-Lemma msg_step_other_gen p s outbound m v3 flag t bt f tape t' :
-  t' <> t -> cur p (fst (fst (msg_step p s outbound m v3 flag t bt f tape))) t' = cur p s t'.
+Lemma msg_step_other_gen p s outbound m v3 flag t bt tid f tape t' :
+  t' <> t -> cur p (fst (fst (msg_step p s outbound m v3 flag t bt tid f tape))) t' = cur p s t'.
 Proof.
   intros H. unfold msg_step. destruct (f_get f); [reflexivity|].
   destruct (target p m v3 outbound) as [x|]; [|reflexivity].
@@ -830,17 +837,17 @@ Qed.
 
 Lemma wire_accepted_gen p s outbound m v3 flag wi wth wpth fresh f tape :
   fst (snd (step p s (Wire outbound m v3 flag wi wth wpth fresh f tape))) <> RReject ->
-  exists t x, wire_thread p m v3 outbound wi wth wpth fresh = Some t /\ target p m v3 outbound = Some x /\
+  exists t x, wire_thread_s p s m v3 outbound wi wth wpth fresh = Some t /\ target p m v3 outbound = Some x /\
               can p (cur p s t) x = true /\
               forall t', t' <> t -> cur p (fst (step p s (Wire outbound m v3 flag wi wth wpth fresh f tape))) t' = cur p s t'.
 Proof.
   intros H. unfold step, step_full in *.
-  destruct (wire_thread p m v3 outbound wi wth wpth fresh) as [t|] eqn:EW; [|cbn in H; congruence].
+  destruct (wire_thread_s p s m v3 outbound wi wth wpth fresh) as [t|] eqn:EW; [|cbn in H; congruence].
   destruct (_ && N.eqb (p_tid_check p) 2); [cbn in H; congruence|].
-  match type of H with context [msg_step p s outbound m v3 flag t ?b ?ff tape] =>
-    pose proof (msg_accepted p s outbound m v3 flag t b ff tape) as A;
-    pose proof (msg_step_other_gen p s outbound m v3 flag t b ff tape) as O;
-    destruct (msg_step p s outbound m v3 flag t b ff tape) as [[s1 [r1 ann1]] fat] end.
+  match type of H with context [msg_step p s outbound m v3 flag t ?b ?td ?ff tape] =>
+    pose proof (msg_accepted p s outbound m v3 flag t b td ff tape) as A;
+    pose proof (msg_step_other_gen p s outbound m v3 flag t b td ff tape) as O;
+    destruct (msg_step p s outbound m v3 flag t b td ff tape) as [[s1 [r1 ann1]] fat] end.
   cbn [fst snd] in *.
   destruct A as [x [Hx Hc]].
   { intro E. apply H. rewrite E. unfold relabel. destruct (_ && _); reflexivity. }
